@@ -6,7 +6,7 @@ package patch
 
 //@ func (f *File) Apply(filename, src) (out, err)
 //@   requires wfProg(f.prog)
-//@   assigns group(ast), matchCount, replFail, sitesReplaced
+//@   assigns group(ast), matchCount, replFail, sitesReplaced, restructured
 //@   ensures [C06] no-match-returns-input: matchCount == old(matchCount) && replFail == old(replFail) ==> (err == nil ==> out == src)
 //@   ensures [C07] output-parses: err == nil && out != src ==> Parses(string(out))
 //@   ensures [C12,C14] same-pipeline-as-cli: err == nil && out != src ==> exists n int :: n != 0 && string(out) == impProc(filename, fmtNode(n))
